@@ -102,3 +102,14 @@ func (pool *TxPool) VerifConfig() TxPoolConfig { return pool.config }
 // VerifSetEvictionInterval sets the period of the pool loop's idle-eviction tick for pools created afterwards
 // (the concurrent tier uses a short period so that the real eviction path runs against concurrent submissions).
 func VerifSetEvictionInterval(d time.Duration) { evictionInterval = d }
+
+// VerifRotateJournal regenerates the local transaction journal from pool.local() the way the loop's journal tick does
+// (no-op when journaling is disabled).
+func (pool *TxPool) VerifRotateJournal() error {
+	pool.mu.Lock()
+	defer pool.mu.Unlock()
+	if pool.journal == nil {
+		return nil
+	}
+	return pool.journal.rotate(pool.local())
+}
